@@ -7,6 +7,7 @@ use serde_json::{Value, json};
 
 use crate::common::*;
 use crate::pipeline;
+use crate::realos;
 use crate::rng::{Rng, fnv, fnv_u64};
 
 pub struct C17;
@@ -198,11 +199,20 @@ impl Engine for C17 {
         case["calls"] = json!(calls);
         case["mode"] = json!(mode);
         case["errors"] = json!(errors);
+        if i % 200 == 199 {
+            // the same input through a real pipe into the real binary
+            case["mode"] = json!("real");
+            case["errors"] = json!([]);
+            case["pauses"] = json!((0..8).map(|_| r.pick(&[0u64, 0, 1, 3])).collect::<Vec<_>>());
+        }
         case
     }
 
     fn execute(&self, case: &Value) -> RunResult {
         let mut res = RunResult::new();
+        if case["mode"] == "real" {
+            return exec_real(case);
+        }
         drain_carry_over();
         let text = text_of(case);
         let calls = case["calls"].as_u64().unwrap() as usize;
@@ -455,4 +465,51 @@ impl Engine for C17 {
         json!({"real": ["src/sys/unix.rs UnixStdin::read_line", "GlobalBuiltin::read_line", "lexer/parser/resolver/runtime (script modes)", "arena allocator"],
                "stub": ["libc::read on fd 0 (fake_libc::read)"]})
     }
+}
+
+/// `naija` reads the same text from a real pipe, written in the planned pieces with real pauses.
+fn exec_real(case: &Value) -> RunResult {
+    let mut res = RunResult::new();
+    res.trace_hash = fnv(0, &serde_json::to_vec(case).unwrap());
+    res.nontrivial = true;
+    res.count("real_os_cross_checks", 1);
+    let text = text_of(case);
+    let calls = case["calls"].as_u64().unwrap() as usize;
+    let plan: Vec<usize> = case["plan"].as_array().unwrap().iter().map(|x| x.as_u64().unwrap() as usize).collect();
+    let pauses: Vec<u64> = case["pauses"].as_array().map(|a| a.iter().map(|x| x.as_u64().unwrap()).collect()).unwrap_or_default();
+    let mut feed: Vec<(Vec<u8>, u64)> = vec![];
+    let mut pos = 0;
+    let mut k = 0;
+    while pos < text.len() && feed.len() < 3000 {
+        let n = plan.get(k.min(plan.len().saturating_sub(1))).copied().unwrap_or(usize::MAX).max(1).min(text.len() - pos);
+        feed.push((text[pos..pos + n].to_vec(), pauses.get(k % pauses.len().max(1)).copied().unwrap_or(0)));
+        pos += n;
+        k += 1;
+    }
+    if pos < text.len() {
+        feed.push((text[pos..].to_vec(), 0));
+    }
+    res.count("real_pipe_writes", feed.len() as u64);
+    let src = format!("make i get 0\njasi (i small pass {calls}) start\n  shout(read_line(\"\"))\n  i get i add 1\nend\n");
+    let run = match realos::run_naija(&src, Some(&feed)) {
+        Ok(r) => r,
+        Err(m) => return res.violation("harness", m),
+    };
+    let mut want: Vec<u8> = vec![];
+    let mut lines: Vec<&[u8]> = text.split(|b| *b == b'\n').collect();
+    while lines.len() < calls {
+        lines.push(b"");
+    }
+    for l in lines.iter().take(calls) {
+        want.extend_from_slice(l);
+        want.push(b'\n');
+    }
+    if run.code != 0 {
+        return res.violation("unexpected-error", format!("real pipe: naija exited {}: {:?}", run.code, String::from_utf8_lossy(&run.stdout).chars().take(200).collect::<String>()));
+    }
+    if run.stdout != want {
+        let k = run.stdout.iter().zip(want.iter()).position(|(a, b)| a != b).unwrap_or(run.stdout.len().min(want.len()));
+        return res.violation("wrong-line", format!("real pipe: output differs from the input lines at byte {k} ({} vs {} bytes)", run.stdout.len(), want.len()));
+    }
+    res
 }
